@@ -64,9 +64,18 @@ def case_st(draw):
     end = draw(st.sampled_from(['client', 'server', 'none']))
     pre = draw(st.sampled_from([0, 0, 0, 1, 3, 17]))
     greets = draw(st.sampled_from([0, 0, 0, 1, 3]))
+    # handlers that take (virtual) time on either side; message handlers only a little, so that a
+    # whole conversation of bursts cannot starve the heartbeat of a synchronous reader
+    delays = draw(st.sampled_from([None, None, None,
+                                   {'client': {'disconnect': 0.25}, 'server': {}},
+                                   {'client': {}, 'server': {'disconnect': 0.25}},
+                                   {'client': {'connect': 0.25, 'message': 2.0 ** -9},
+                                    'server': {'message': 2.0 ** -9}},
+                                   {'client': {'disconnect': 0.25, 'message': 2.0 ** -9},
+                                    'server': {'disconnect': 0.25, 'message': 2.0 ** -9}}]))
     return {'impl': impl, 'server': server, 'transports': transports, 'I': I, 'T': T,
             'async_handlers': draw(st.booleans()), 'steps': steps, 'end': end,
-            'send_in_connect': pre, 'server_greets': greets}
+            'send_in_connect': pre, 'server_greets': greets, 'delays': delays}
 
 
 def tagged(side, seq, p):
@@ -95,6 +104,9 @@ def check_case(case, ctx=None, idle_scale=1.0):
     greets = [tagged('s', 2000 + i, 'greet') for i in range(case.get('server_greets', 0))]
     h.world.app_log.connect_sends = list(greets)
     ssent.extend(greets)
+    if case.get('delays'):
+        h.handler_delay = dict(case['delays']['client'])
+        h.world.app_log.delay = dict(case['delays']['server'])
     try:
         pre = case.get('send_in_connect', 0)
         if pre:
@@ -175,6 +187,8 @@ def check_case(case, ctx=None, idle_scale=1.0):
                 cls.append('idle>=10-cycles')
             if pre:
                 cls.append('send-in-connect-handler')
+            if case.get('delays'):
+                cls.append('handlers-taking-time')
             ctx.case(rep, nt, cls)
     finally:
         h.teardown()
